@@ -180,6 +180,8 @@ def main(argv=None):
                 feats[k] = feats.get(k, 0) + 1
         if r.get("nontrivial") and r.get("sig") is not None and r["status"] in ("held", "violated"):
             sigs.add(r["sig"])
+        if r["status"] == "inconclusive":
+            harness_errors.append({"id": r["id"], "error": "case inconclusive: " + str(r.get("note", ""))})
         if r["status"] == "import_error":
             harness_errors.append({"id": r["id"], "error": "lcm import failed: " + r.get("error", "")[-400:]})
         if r["status"] == "harness_error":
@@ -197,6 +199,12 @@ def main(argv=None):
 
     agg = mod.aggregate(results, tier) if hasattr(mod, "aggregate") else {}
     inconclusive = [] if a.replay else list(agg.get("inconclusive", []))
+    for v in agg.get("violations", []):
+        hit = next((k for k in known if k["key"] == v.get("key")), None)
+        if hit is not None:
+            known_hits.setdefault(hit["key"], {"finding": hit, "n": 0, "example": v.get("case_id")})["n"] += 1
+        else:
+            violations.append(v)
     floors = getattr(mod, "FLOORS", {}).get(tier, {})
     if not a.replay:
         for k, m in floors.items():
@@ -258,7 +266,7 @@ def main(argv=None):
         "inconclusive_reasons": inconclusive,
     }
     for k, v in agg.items():
-        if k not in ("inconclusive", "evaluations", "distinct_nontrivial", "exhaustive"):
+        if k not in ("inconclusive", "evaluations", "distinct_nontrivial", "exhaustive", "violations"):
             coverage[k] = v
     evidence = {
         "property_id": pid,
